@@ -837,6 +837,28 @@ def extra_stats(cases, impl):
                         pos_all[c['tags']['fn']].add(q)
                         if ok:
                             pos_ok[c['tags']['fn']].add(q)
+    # writers x positions x left-hand sides: every cell of the matrix must get past the PARSER (a cell that never compiles tests nothing)
+    cells, cells_ok, lhs_ok, plc = set(), set(), set(), set()
+    for c in cases:
+        if c['tags'].get('family') != 'writer-position':
+            continue
+        il = [l for l in impl.get(c['id'], []) if l.startswith('sb_probe')]
+        pl = [l for l in c['lines'] if l.startswith('sb_probe')]
+        for p, l in zip(pl, il):
+            t = dict(x.split('=', 1) for x in p.split() if '=' in x)
+            w = t.get('w') if t.get('w') != 'set' else 'set:' + t.get('lhs', '')
+            cell = (w, t.get('form'), t.get('ctx'))
+            cells.add(cell)
+            plc.add((t.get('form'), t.get('ctx')))
+            st['wpos_probes'] += 1
+            if ' i_compiles=1' in l:
+                st['wpos_compiled'] += 1
+                cells_ok.add(cell)
+            if ' i_res=ok' in l and ' mode=event ' not in l and ' mode=inbox ' not in l:
+                st['wpos_evaluated_without_error'] += 1         # e.g. swallowed by try/except, closures that are only built
+    st['wpos_cells_writer_x_placement'] = len(cells)
+    st['wpos_placements'] = len(plc)
+    st['wpos_cells_never_compiled'] = sorted('%s@%s.%s' % c for c in cells - cells_ok)[:40]
     st['purity_function_positions_probed'] = sum(len(v) for v in pos_all.values())
     st['purity_function_positions_with_successful_call'] = sum(len(v) for v in pos_ok.values())
     st['purity_functions_without_successful_call_on_live_container'] = sorted(f for f in pos_all if not pos_ok[f])
